@@ -279,6 +279,12 @@ def check_pysnmp_default(res, where, d, obj_syntax, replay, feat):
 def run_case(idx, rng, tier, res):
     stress = idx % 5 == 4
     g = make_set(rng, tier, stress)
+    if rng.random() < 0.12:
+        # the dialect the tools use (and these compiles run under) tolerates enumerations whose items are
+        # separated by blanks or end in a comma: the labels and values are the same all the same
+        from checks import c17_dialects
+        if c17_dialects.plant(g, rng, rng.choice(['enum_spaces', 'enum_trailing'])) is not None:
+            res.count('tolerated_enumeration_spellings')
     texts = g.texts((lambda: Layout(rng, 'noisy')) if rng.random() < 0.2 else None)
     gt = rng.random() < 0.3
     c = compiled.Compiled(g, texts, load_texts=gt, genTexts=gt)
